@@ -256,6 +256,25 @@ CLAIMED = {
         design='DESIGN.md section 5, C14',
         note='Representation agreement only; equality of characters across representations and buffer-size '
              'boundaries are not decided.'),
+    'C20': dict(
+        technique='table agreement over folded registries; abstract evaluation of setup constructors with taint of '
+                  'the registered name; origin chains (argument plumbing) from the main program to the help builders; '
+                  'totality of visitors; sibling agreement of anchor-id and href rendering; configuration obligation '
+                  'for URL references',
+        text='The five phase tables and the suite table are literal (name, setup) lists with distinct folded names and '
+             'setups from the package of their phase; each of the ~50 setup constructors returns one '
+             'SingleInstructionSetup whose documentation is built with the registered name; the help is built from the '
+             'instruction setup of the parsing setup in use and phase_helps_for builds the help of every phase from the '
+             'instruction set of that phase; the suite help lists exactly the sections the suite reader registers; for '
+             'actors, types, directives, configuration parameters and suite reporters the help list documents exactly '
+             'the defined constants, and the accepted-type table of def, the reporter table of the suite command and '
+             'the [conf] instruction names cover the same sets; the entity-type registry is total; every '
+             'cross-reference visitor implements every target kind; anchor ids are target_renderer.apply(target) '
+             'and hrefs "#" + the same; URL references are never in-document; id prefixes of target kinds are prefix '
+             'free.',
+        design='DESIGN.md section 5, C20',
+        note='Not decided: that every help page renders, that every href in the generated HTML has exactly one id '
+             '(needs the document to be built - running the program).'),
 }
 
 NOT_APPLICABLE = {
